@@ -110,8 +110,10 @@ def clone(o):
                         vdims=(list(o.vdims) if o.vdims is not None else None), unit=o.unit,
                         valid=np.array(o.valid, copy=True), vdim_mapping=dict(o.vdim_mapping), dtype=o.array.dtype)
     if isinstance(o, df.Mesh):
-        return df.Mesh(region=clone(o.region), n=[int(k) for k in o.n], bc=o.bc,
-                       subregions={k: clone(s) for k, s in o.subregions.items()})
+        m = df.Mesh(region=clone(o.region), n=[int(k) for k in o.n], bc=o.bc)
+        # exact copy: do not re-run the subregion setter (its absolute tolerance is scale dependent, D18)
+        m._subregions = {k: clone(s) for k, s in o.subregions.items()}
+        return m
     return df.Region(p1=np.array(o.pmin, copy=True), p2=np.array(o.pmax, copy=True), dims=list(o.dims),
                      units=list(o.units), tolerance_factor=o.tolerance_factor)
 
@@ -228,6 +230,8 @@ def gen_op(rng, spec, allow_bad=True, far=True, rot_ref_small=False):
         return dict(t="translate", v=v, inplace=inplace)
     if t == "scale":
         choices = [2, 0.5, -1, -2, 4, 0.25, 3, -0.5, 1, 8]
+        if spec.get("subs"):
+            choices = [2, 0.5, -1, -2, -0.5, 1, 0.5, 0.25]  # keep magnitudes moderate (alignment tolerance is absolute, D18)
         if allow_bad:
             choices += [0]
         if rng.random() < 0.35:
